@@ -12,6 +12,8 @@ import re
 import vlib
 from vlib import cstr, clist
 import specgen
+import specgen_mixed
+import compilepool
 import runlib
 import execlib
 
@@ -50,6 +52,131 @@ def restrict_mapping(mapping, out):
         if out in mapping.get(sec, {}):
             m[sec] = {out: mapping[sec][out]}
     return m
+
+
+
+def _lines(text):
+    return [l for l in text.split("\n") if l.strip()]
+
+
+def cascade_vs_standalone(decl, exprs, mapping, outs, full, alones):
+    """full / alones[i]: ("T", text) | ("E", error) of the cascade and of every Einsum compiled alone (same declarations,
+    the mapping restricted to that Einsum).  -> None when the cascade is the concatenation of the stand-alone programs up
+    to the numbering of temporaries (or both sides reject), else (key, what, detail)."""
+    failing = [i for i, a in enumerate(alones) if a[0] == "E"]
+    if full[0] == "E":
+        if not failing:
+            return ({"kind": "cascade-rejected-standalone-compiles"},
+                    "every Einsum of the cascade compiles alone, but the cascade is rejected with %s" % full[1][:200], {"error": full[1]})
+        return None
+    if failing:
+        i = failing[0]
+        return ({"kind": "standalone-rejected-cascade-compiles"},
+                "Einsum %d (%s) is rejected when compiled alone (%s) but accepted after its predecessors" % (i, exprs[i], alones[i][1][:200]),
+                {"index": i, "error": alones[i][1]})
+    cat = []
+    for i, a in enumerate(alones):
+        cat += _lines(re.sub(r'\btmp(\d+)\b', lambda m: "tmp9%02d%s" % (i, m.group(1)), a[1]))
+    got = _lines(renumber(full[1]))
+    exp = _lines(renumber("\n".join(cat)))
+    if got == exp:
+        return None
+    # which Einsum?  walk the stand-alone programs along the cascade's text
+    pos = 0
+    for i, a in enumerate(alones):
+        n = len(_lines(a[1]))
+        g = _lines(renumber("\n".join(_lines(full[1])[pos:pos + n])))
+        e = _lines(renumber(a[1]))
+        if g != e:
+            d = [(x, y) for x, y in zip(g, e) if x != y][:3]
+            return ({"kind": "section-differs-from-standalone"},
+                    "Einsum %d (%s) is compiled differently inside the cascade than alone: %s" % (i, exprs[i], d),
+                    {"index": i, "alone": a[1], "first_differences": d})
+        pos += n
+    return ({"kind": "sections-do-not-concatenate"}, "the cascade's text is not the concatenation of the stand-alone texts", {})
+
+
+def mixed_part(ctx, stats):
+    """Cascades over one small pool of rank names mixing plain Einsums with index arithmetic, per-Einsum shape(+follow) /
+    occupancy / flatten partitioning and spacetimes (tools/specgen_mixed.py): text of the cascade vs concatenation of the
+    stand-alone texts for all of them; execution against the chained oracle outside the C04 defect classes."""
+    from props.c04 import flags_of
+    from props.c16 import coord_on_flat
+    rng = ctx.rng
+    n = 220 if ctx.quick() else 2400
+    nexec = 110 if ctx.quick() else 1200
+    items = [specgen_mixed.gen_mixed_cascade(rng) for _ in range(n)]
+    jobs, index = [], []
+    for it in items:
+        index.append(len(jobs))
+        jobs.append(it["yaml"])
+        for j, e in enumerate(it["exprs"]):
+            jobs.append(specgen.yaml_of(it["decl"], [e], restrict_mapping(it["mapping"], it["per"][j]["out"])))
+    res = compilepool.compile_many(jobs)
+    ms = {"cascades": n, "compiled": 0, "rejected_consistently": 0, "sections_compared": 0, "kinds": {}, "with_index_math": 0,
+          "index_math_then_reuse_of_its_ranks": 0, "with_spacetime": 0, "partitioned_sections": 0, "executed": 0, "in_c04_defect_class": 0, "in_c01_c16_defect_class": 0, "take_reads_intermediate": 0}
+    bad = 0
+    cases = []
+    for it, k in zip(items, index):
+        full = res[k]
+        alones = res[k + 1:k + 1 + len(it["exprs"])]
+        v = cascade_vs_standalone(it["decl"], it["exprs"], it["mapping"], [p["out"] for p in it["per"]], full, alones)
+        if v is not None:
+            bad += 1
+            key, what, detail = v
+            detail.update({"yaml": it["yaml"]})
+            ctx.violation(key, what, detail)
+            continue
+        if full[0] == "E":
+            ms["rejected_consistently"] += 1
+            continue
+        ms["compiled"] += 1
+        ms["sections_compared"] += len(it["exprs"])
+        kinds = "+".join(sorted(set(p["kind"] for p in it["per"])))
+        ms["kinds"][kinds] = ms["kinds"].get(kinds, 0) + 1
+        ms["with_spacetime"] += 1 if it["mapping"].get("spacetime") else 0
+        ms["partitioned_sections"] += len(it["mapping"].get("partitioning", {}))
+        rel = [(i, p) for i, p in enumerate(it["per"]) if p["kind"] != "plain"]
+        if rel:
+            ms["with_index_math"] += 1
+            i0, p0 = rel[0]
+            names = set([p0["W"], p0["Q"]] + ([p0["S"]] if p0["S"] else []))
+            if any(len(names & (set(q["ranks"]) | set(q.get("acc", {})))) >= 2 for q in it["per"][i0 + 1:]):
+                ms["index_math_then_reuse_of_its_ranks"] += 1
+        text = full[1]
+        fl = {}
+        for p in it["per"]:
+            for a, b in flags_of(text, it["mapping"], p["out"]).items():
+                fl[a] = fl.get(a, False) or b
+        if any(fl.values()):
+            ms["in_c04_defect_class"] += 1
+            continue
+        spec = runlib.Spec(it["yaml"])
+        if any(specgen.take_selected_lacks_rank(s) for s in spec.structs) or \
+                any(coord_on_flat(spec, st) for st in (it["mapping"].get("spacetime") or {}).values()):
+            ms["in_c01_c16_defect_class"] += 1         # F7 / F6b: reported by C01 / C16
+            continue
+        produced = set()
+        take_on_intermediate = False
+        for st_ in spec.structs:
+            for t in st_["terms"]:
+                if t["take"] is not None and any(f[0] == "T" and f[1] in produced for f in t["factors"]):
+                    take_on_intermediate = True
+            produced.add(st_["out"])
+        if take_on_intermediate:
+            # an intermediate holds explicit zeros (`z << a` creates the element before the reduction adds anything; iterRangeShapeRef
+            # creates every coordinate); whether take() sees them as present is a question about fibertree that the runtime model
+            # answers with "present" - not settled (see notes/STRENGTHEN_X2.md), so these are compared as text only
+            ms["take_reads_intermediate"] += 1
+            continue
+        if ms["executed"] >= nexec:
+            continue
+        ms["executed"] += 1
+        ext = specgen_mixed.mixed_extents(rng, it)
+        data, scal = runlib.gen_inputs(spec, ext, rng, density=rng.choice([1.0, 0.7]))
+        cases.append(execlib.Case(spec, text, ext, data, scal, extra_ints=it["syms"], meta={"mixed": True}))
+    stats["mixed"] = ms
+    return cases, bad
 
 
 # ---- tensor state machine T-eq ------------------------------------------------
@@ -119,6 +246,13 @@ def run(ctx):
         except Exception as e:
             k = type(e).__name__ + ": " + str(e)[:60]
             stats["compile_errors"][k] = stats["compile_errors"].get(k, 0) + 1
+            # a cascade may only be rejected when one of its Einsums is rejected alone
+            alones = compilepool.compile_many([specgen.yaml_of(decl, [x], restrict_mapping(mp, per[j]["out"])) for j, x in enumerate(exprs)], nproc=1)
+            v = cascade_vs_standalone(decl, exprs, mp, [q["out"] for q in per], ("E", k), alones)
+            if v is not None:
+                text_bad += 1
+                v[2]["yaml"] = y
+                ctx.violation(v[0], v[1], v[2])
             continue
         stats["cascades"] += 1
         stats["lengths"][len(exprs)] = stats["lengths"].get(len(exprs), 0) + 1
@@ -147,6 +281,9 @@ def run(ctx):
             ext = runlib.default_extents(spec, rng, 1, 4)
             data, scal = runlib.gen_inputs(spec, ext, rng, density=rng.choice([1.0, 0.7]))
             cases.append(execlib.Case(spec, text, ext, data, scal, extra_ints=syms))
+    mcases, mbad = mixed_part(ctx, stats)
+    cases += mcases
+    text_bad += mbad
     execlib.evaluate(cases, "c05")
     bad = 0
     for c in cases:
@@ -158,7 +295,11 @@ def run(ctx):
         if r["status"] == "RAN":
             ctx.violation({"kind": "wrong-result", "take_in_sum_selected_lacks_rank": f7}, "cascade computes wrong outputs: %s" % r["out"][:300], c.replay())
         else:
-            ctx.violation({"kind": "execution-error", "error": r.get("err", r["status"])[:40]}, "cascade cannot be executed: %s" % r, c.replay())
+            key = {"kind": "execution-error", "error": r.get("err", r["status"])[:40]}
+            if "unbound" in r:       # same structural key as C04/C02 use for F5 (the level-size name read in iterRangeShapeRef arguments)
+                key["unbound_is_level_name"] = bool(re.match(r'^[A-Z]+\d$', r["unbound"]))
+                key["error"] = "unbound"
+            ctx.violation(key, "cascade cannot be executed: %s" % r, c.replay())
     nsm, sm_bad, sm_samples = tensor_sm_cases(ctx, 400 if ctx.quick() else 4000)
     for e, g, r in sm_bad[:5]:
         ctx.violation({"kind": "tensor-sm-correspondence"}, "teaal.ir.tensor.Tensor and Model/TensorSM.v disagree: code %s model %s" % (g, r),
@@ -167,7 +308,10 @@ def run(ctx):
     ctx.coverage.update({
         "programs": distinct, "executions": len(cases), "disagreements_checked": bad + text_bad + len(sm_bad), "evaluations": len(cases) + nsm,
         "distinct_nontrivial": distinct, "population": stats, "tensor_sm_sequences": nsm,
-        "rule": "random cascades of 2-4 Einsums (each reading earlier results where ranks allow), per-Einsum loop orders, optional shape partitioning of one rank per Einsum, "
+        "rule": "mixed cascades (tools/specgen_mixed.py: one pool of 3-5 rank names out of 17 per cascade, every Einsum plain or with index arithmetic I[a*q], I[a*q+b*s], "
+                "per-Einsum shape(+follow)/occupancy/flatten partitioning and spacetimes; cascade text vs concatenated stand-alone texts, rejection only if an Einsum is rejected alone; "
+                "execution outside the C04 defect classes) + "
+                "random cascades of 2-4 Einsums (each reading earlier results where ranks allow), per-Einsum loop orders, optional shape partitioning of one rank per Einsum, "
                 "random rank orders of all tensors incl. intermediates; section-vs-standalone text for every Einsum of every cascade; 2 executions per cascade; "
                 "400/4000 random Tensor operation sequences",
         "samples": [{"yaml": cases[0].spec.yaml, "extents": cases[0].extents, "result": cases[0].raw}] + sm_samples if cases else sm_samples,
